@@ -111,6 +111,7 @@ def run(ctx, rng, k, cancel_prob=0.0, max_polls=40):
         fair = k_ >= fair_from
         if not fair and st["cancel_at"] is None and rng.random() < cancel_prob:
             Conductor.mark_cancelled(root)
+            S.WORLD.cancel_code = "OK" if rng.random() < 0.6 else "ERROR"
             st["cancel_at"] = k_
             st["nontrivial"] = True
         reps = []
